@@ -287,11 +287,113 @@ async fn c15_actor_case(seed: u64, i: u64) -> CaseOut {
     out
 }
 
+/// The selector as the membership WATCHER feeds it: snapshots (id -> address, data centre) go through the
+/// real watcher task; between snapshots single members are replaced (count preserved), move to another
+/// data centre keeping id and address, join, leave, or nothing changes. After each snapshot has been
+/// published the selector is asked for every level and judged against THAT snapshot.
+async fn c15_watcher_case(seed: u64, i: u64, prefix: &str) -> CaseOut {
+    let mut rng = rng_for(seed, 0xC15_3A7C, i);
+    let mut out = CaseOut::default();
+    let local = addr(0, 0);
+    let sel = nv::start_node_selector(local, Cow::Borrowed("dc-0"), DCAwareSelector).await;
+    // id -> (address, data centre index); id 0 is the local node in dc-0
+    let mut members: BTreeMap<u8, (SocketAddr, usize)> = BTreeMap::from([(0u8, (local, 0usize))]);
+    let to_membership = |m: &BTreeMap<u8, (SocketAddr, usize)>| -> nv::NodeMembership { m.iter().map(|(id, (a, d))| (*id, ClusterMember::new(*id, *a, format!("dc-{d}")))).collect() };
+    let (tx, rx) = watch::channel(to_membership(&members));
+    let changes = nv::spawn_membership_watcher(0, RpcNetwork::default(), sel.clone(), ClusterStatistics::default(), rx);
+    let mut probe = changes.clone();
+    if tokio::time::timeout(Duration::from_secs(5), probe.changed()).await.is_err() {
+        out.inconclusive = Some("watcher did not publish the initial delta".into());
+        return out;
+    }
+    let mut next_id = 1u8;
+    let mut trace = Vec::new();
+    let mut interesting = false;
+    for step in 0..rng.gen_range(3..9) {
+        let others: Vec<u8> = members.keys().copied().filter(|k| *k != 0).collect();
+        let kind = if others.is_empty() { 0 } else { rng.gen_range(0..6) };
+        let what = match kind {
+            // join (possibly into a new data centre)
+            0 | 1 => {
+                let d = rng.gen_range(0..3usize);
+                members.insert(next_id, (addr(d, 10 + next_id as usize), d));
+                next_id += 1;
+                "join"
+            },
+            // leave
+            2 => {
+                members.remove(others.choose(&mut rng).unwrap());
+                "leave"
+            },
+            // one member replaced by a new one in the same data centre: counts unchanged
+            3 => {
+                let gone = *others.choose(&mut rng).unwrap();
+                let (_, d) = members.remove(&gone).unwrap();
+                members.insert(next_id, (addr(d, 10 + next_id as usize), d));
+                next_id += 1;
+                interesting = true;
+                "replace (same data centre, counts unchanged)"
+            },
+            // a member moves to another data centre, same id, same address
+            4 => {
+                let id = *others.choose(&mut rng).unwrap();
+                let e = members.get_mut(&id).unwrap();
+                e.1 = (e.1 + 1 + rng.gen_range(0..2)) % 3;
+                interesting = true;
+                "data-centre move (same id and address)"
+            },
+            // nothing changes
+            _ => "same snapshot again",
+        };
+        tx.send(to_membership(&members)).unwrap();
+        if tokio::time::timeout(Duration::from_secs(5), probe.changed()).await.is_err() {
+            out.inconclusive = Some("watcher did not publish a delta for a snapshot".into());
+            return out;
+        }
+        let _ = probe.borrow_and_update();
+        trace.push(json!({"step": step, "change": what, "members": members.iter().map(|(id, (a, d))| json!([id, a.to_string(), format!("dc-{d}")])).collect::<Vec<_>>()}));
+        // layout of THIS snapshot: sizes per data centre in name order, position of the local data centre
+        let mut by_dc: BTreeMap<usize, usize> = BTreeMap::new();
+        for (_, (_, d)) in &members {
+            *by_dc.entry(*d).or_insert(0) += 1;
+        }
+        let lay: Vec<usize> = by_dc.values().copied().collect();
+        let ldc = by_dc.keys().position(|d| *d == 0).unwrap();
+        let all: BTreeSet<SocketAddr> = members.values().map(|v| v.0).collect();
+        let mut levels = LEVELS.to_vec();
+        levels.shuffle(&mut rng);
+        for level in levels.into_iter().take(rng.gen_range(2..=8)) {
+            let r = sel.get_nodes(level).await;
+            out.count("selections_after_a_watcher_fed_update", 1);
+            let required = need(level, &lay, ldc);
+            trace.push(json!({"get_nodes": format!("{level:?}"), "result": match &r { Ok(s) => json!(s.iter().map(|a| a.to_string()).collect::<Vec<_>>()), Err(e) => json!(e.to_string()) }}));
+            if let Some((what, d)) = judge_selection(level, &r, &all, local, required) {
+                let what = if what.starts_with("non-member-selected") { format!("departed-node-selected-after-membership-update:{level:?}") } else { what };
+                out.violate(format!("{prefix}:{what}:selector-fed-by-the-membership-watcher"), json!({"trace": trace, "why": d}));
+                out.replay = Some(json!({"mode": "watcher", "seed": seed, "index": i}));
+                return out;
+            }
+        }
+    }
+    if interesting {
+        out.nontrivial = Some(hash_of(&format!("{trace:?}")));
+    }
+    out
+}
+
+/// C16's reading of the same scenario: replication addresses peers through the selector.
+pub fn c16_selector_cases(report: &mut Report, args: &Args) {
+    let seed = args.seed;
+    let n = args.pick(20_000, 500_000);
+    run_cases(report, n, args.threads, Duration::from_secs(args.pick(60, 600)), |i| block_on_paused(c15_watcher_case(seed.wrapping_add(16), i, "C16:replication-would-address-the-wrong-peers")));
+    report.floor("selections_after_a_watcher_fed_update", 50_000);
+}
+
 pub fn c15(args: &Args) {
     let mut report = Report::new(
         args,
         "E5-selector",
-        "trait level (exhaustive): all 340 layouts of 1-4 DCs x 1-4 nodes x every local position x all 8 levels x every history of 0,1,2 prior selections on the same persistent cursors (thorough: + length-3 histories for <= 8 nodes), One/Two/Three repeated 8x when several DCs exist (random DC choice), through the public NodeSelector trait on the real DCAwareSelector. Actor level: random sequences of 3-8 membership updates (DCs vanish/return, sizes and addresses change) interleaved with selections through the real selector actor (hook H3). Oracle: selected set is duplicate free, without the local node, only current members, >= required (exactly n for One/Two/Three); NotEnoughNodes only if fewer than required other nodes exist. Non-trivial: >= 3 nodes (trait) / a membership update removed nodes (actor); distinct = distinct (layout, position, history, level) / traces.",
+        "watcher-fed selector: 40 000 sequences of 3..8 membership snapshots (join, leave, one member REPLACED with counts unchanged, a member MOVING to another data centre with the same id and address, an unchanged snapshot) sent through the real membership watcher task; after each published change every level is asked of the selector and judged against that snapshot. trait level (exhaustive): all 340 layouts of 1-4 DCs x 1-4 nodes x every local position x all 8 levels x every history of 0,1,2 prior selections on the same persistent cursors (thorough: + length-3 histories for <= 8 nodes), One/Two/Three repeated 8x when several DCs exist (random DC choice), through the public NodeSelector trait on the real DCAwareSelector. Actor level: random sequences of 3-8 membership updates (DCs vanish/return, sizes and addresses change) interleaved with selections through the real selector actor (hook H3). Oracle: selected set is duplicate free, without the local node, only current members, >= required (exactly n for One/Two/Three); NotEnoughNodes only if fewer than required other nodes exist. Non-trivial: >= 3 nodes (trait) / a membership update removed nodes (actor); distinct = distinct (layout, position, history, level) / traces.",
     );
     if let Some(path) = &args.replay {
         let r = read_replay(path);
@@ -319,6 +421,9 @@ pub fn c15(args: &Args) {
     let seed = args.seed;
     let n = args.pick(200_000, 3_000_000);
     run_cases(&mut report, n, args.threads, Duration::from_secs(args.pick(60, 900)), |i| block_on_paused(c15_actor_case(seed, i)));
+    let n_w = args.pick(40_000, 1_000_000);
+    run_cases(&mut report, n_w, args.threads, Duration::from_secs(args.pick(60, 900)), |i| block_on_paused(c15_watcher_case(seed, i, "C15")));
+    report.floor("selections_after_a_watcher_fed_update", 100_000);
     report.floor("selections_judged", 100_000);
     report.floor("actor_selections_judged", 10_000);
     report.finish(args);
@@ -592,6 +697,10 @@ pub fn c16(args: &Args) {
         out
     });
     report.exhaustive = !report.extra.contains_key("watchdog");
+    // replication addresses its peers (for every level but None) through the node selector, which the
+    // watcher feeds from the same snapshots: after every published change the selector must answer for
+    // exactly the live membership
+    c16_selector_cases(&mut report, args);
     report.floor("snapshots_driven", 10_000);
     report.floor("deltas_read", 10_000);
     report.finish(args);
